@@ -367,7 +367,7 @@ def standin_roundtrip(tier, seed):
     for v in layouts:
         cases += 1
         _laws(v, "ResultDict with a non-contiguous array", fails, dict(family="results whose arrays are not row-major in memory", value=repr(v)[:400]), imp)
-    used = [cirq.MatrixGate(loose, unitary_check_atol=1e-3), cirq.MatrixGate(np.array([[1, 0], [0, 1.001]]), unitary_check=False), store, cirq.CZTargetGateset(preserve_moment_structure=False, reorder_operations=True), cirq.CZTargetGateset(preserve_moment_structure=False, allow_partial_czs=True), cirq.Duration(millis=2 ** 53 + 1), cirq.Duration(micros=2 ** 55 + 1), cirq.Duration(picos=2 ** 62 + 3)]  # (kept below the range of datetime.timedelta, which Duration hashes through)
+    used = [cirq.MatrixGate(loose, unitary_check_atol=1e-3), cirq.MatrixGate(np.array([[1, 0], [0, 1.001]]), unitary_check=False), store, cirq.CZTargetGateset(preserve_moment_structure=False, reorder_operations=True), cirq.CZTargetGateset(preserve_moment_structure=False, allow_partial_czs=True), cirq.Duration(millis=2 ** 53 + 1), cirq.Duration(micros=2 ** 55 + 1), cirq.Duration(picos=2 ** 62 + 3), cirq.Duration(millis=10 ** 17), cirq.Duration(nanos=(2 ** 70 + 1) * 1000)]  # (the last two lie beyond the range of datetime.timedelta, which Duration hashes through when it can)
     try:
         import cirq_google
         used += [cirq_google.study.Metadata(unit="ns"), cirq_google.study.Metadata(label="l", is_const=True, unit="GHz"), cirq_google.InternalGate("G", None, 1), cirq_google.InternalGate("G", "mod", 2, x=0.5)]
